@@ -202,6 +202,19 @@ def falsy_member(d: OD.BaseDistribution, r: random.Random) -> Any:
     return 0.0 if member(d, 0.0) is None else "<none>"
 
 
+def off_grid_in_range(d: OD.BaseDistribution, r: random.Random) -> Any:
+    """A number inside [low, high] that is NOT on the step grid (stepped floats, ints incl. step 1): optuna warns and
+    hands an enqueued / fixed value of this kind to the objective as it is - it must not be 'repaired'."""
+    if isinstance(d, OD.FloatDistribution) and d.step is not None and d.high > d.low:
+        v = d.low + d.step * r.choice([0.3, 0.5, 0.7])
+        return v if d.low < v < d.high and member(d, v) is not None else None
+    if isinstance(d, OD.IntDistribution) and d.step >= 2 and d.low + 1 < d.high and not d.log:
+        # an INTEGER between two grid points (a non-integer enqueued for an int parameter is truncated by suggest_int
+        # while trial.params keeps the raw number: invalid input, warned about, outside what the property promises)
+        return d.low + r.randrange(1, d.step)
+    return None
+
+
 def with_falsy_choice(c: dict[str, Any], r: random.Random) -> dict[str, Any]:
     if c["cls"] == "CategoricalDistribution" and r.random() < 0.5:
         c = dict(c)
@@ -259,6 +272,9 @@ def gen_script(r: random.Random) -> dict[str, Any]:
             f = falsy_member(d, r)
             if not (isinstance(f, str) and f == "<none>"):
                 return f
+        off = off_grid_in_range(d, r)
+        if off is not None and r.random() < 0.25:
+            return off
         if r.random() < inside:
             return H11.values_for(d, r, 1)[0]
         if isinstance(d, OD.CategoricalDistribution):
@@ -714,7 +730,10 @@ def eval_run(cx: H11.Ctx, case: dict[str, Any], tmp: str) -> None:
         is_fixed = name in fixed_here
         if is_fixed:
             cx.count("run:fixed-value")
-            if not same_value(v, fixed_here[name]) and not (v == fixed_here[name]):
+            want = fixed_here[name]
+            if isinstance(d, OD.IntDistribution) and isinstance(want, float) and math.isfinite(want):
+                want = int(want)  # suggest_int returns int(<the enqueued value>): 3.7 is handed over as 3, never "repaired" to the grid
+            if not same_value(v, want) and not (v == want):
                 cx.viol("fixed-does-not-win", "%s: enqueued/fixed %r = %r but suggest returned %r" % (spec["kind"], name, fixed_here[name], v))
         contained_fixed = True
         if is_fixed:
@@ -725,14 +744,9 @@ def eval_run(cx: H11.Ctx, case: dict[str, Any], tmp: str) -> None:
         if not (is_fixed and not contained_fixed):
             why = member(d, v)
             if why is not None:
-                tpe_like = spec["kind"] == "tpe" or (spec["kind"] == "partial" and spec["base"]["kind"] == "tpe")
-                if (tpe_like and isinstance(d, OD.FloatDistribution) and d.step is None and isinstance(v, float) and math.isfinite(v)
-                        and abs(K.fbin(v) - K.fbin(min(max(v, d.low), d.high))) <= 8 * Fraction(K.ulp(max(abs(d.low), abs(d.high), d.high - d.low)))):
-                    # TPE's continuous path has no clip: ppf(q) * sigma + mu at an extreme quantile (q = 0 has probability
-                    # 2^-53 per draw; the RNG stub forces it) lands a few ulp outside [low, high]
-                    cx.known("tpe-float-unclipped-few-ulp", "%s sampler, trial %d: suggest(%r, %r) = %r: %s" % (spec["kind"], tn, name, d, v, why))
-                else:
-                    cx.viol("outside-domain", "%s sampler, trial %d: suggest(%r, %r) = %r: %s" % (spec["kind"], tn, name, d, v, why))
+                # (TPE's continuous path used to return ppf(q) * sigma + mu unclipped - defect F33, repaired in /repo
+                # 56cb744; a value even one ulp outside [low, high] is a violation again)
+                cx.viol("outside-domain", "%s sampler, trial %d: suggest(%r, %r) = %r: %s" % (spec["kind"], tn, name, d, v, why))
                 continue
             if isinstance(d, OD.IntDistribution) and (isinstance(v, bool) or not isinstance(v, int)):
                 cx.viol("outside-domain", "%s sampler: suggest_int returned %r of type %s" % (spec["kind"], v, type(v).__name__))
@@ -886,6 +900,9 @@ def gen_run(r: random.Random, spec: dict[str, Any], quick: bool) -> dict[str, An
                     d = K.build(p["variants"][t % len(p["variants"])])
                     f = falsy_member(d, r) if r.random() < 0.35 else "<none>"
                     fx[p["name"]] = H11.values_for(d, r, 1)[0] if isinstance(f, str) and f == "<none>" else f
+                    off = off_grid_in_range(d, r)
+                    if off is not None and r.random() < 0.2:
+                        fx[p["name"]] = off
             if fx:
                 enq[str(t)] = fx
     case["enqueue"] = enq
